@@ -1,5 +1,285 @@
-//! Translator targets owned by property C13.
+//! Translator targets owned by property C13 — `Generated/ScopeFacts.lean`.
+//!
+//! Name resolution is an algorithm over a mutable graph (tied by the
+//! correspondence run), but the *decisions* the model hard-wires are read off the
+//! working tree here, as plain facts, so that changing one of them changes a Lean
+//! definition and `RotoV.C13.source_facts_as_modelled` stops checking:
+//!
+//!  * `ScopeGraph::resolve_name` (src/typechecker/scope.rs): the order in which
+//!    the loop consults the scope's declarations, the `recurse` gate, the scope's
+//!    imports and the parent scope;
+//!  * `resolve_module_part_of_path` (src/typechecker/expr.rs): the values given
+//!    to `recurse` (initially, after a leading `super`, after every segment), and
+//!    that a leading `pkg` is looked up from the global scope;
+//!  * `declare_modules` (src/typechecker/mod.rs): the parent of a module scope;
+//!  * `TypeInfo::full_name` (src/typechecker/info.rs): the separator;
+//!  * `Module::get_function` (src/codegen/mod.rs): the prefix of the looked-up name;
+//!  * src/file_tree.rs: that every way to build a tree calls its root `pkg`; the
+//!    stems `find_files` skips, the extension it wants, the
+//!    file `process_subdir` requires, the file `directory` starts from, the file
+//!    name `read_internal` treats as "named after the directory".
+//!
+//! The facts are located by *what is consulted*, not by the shape of the code:
+//! a refactoring that keeps the order / the literals extracts to the same file.
+
 #[allow(unused_imports)]
 use super::{Gen, Target};
+use crate::find;
+use quote::ToTokens;
+use std::path::Path;
+use syn::visit::Visit;
 
-pub const TARGETS: &[Target] = &[];
+pub const TARGETS: &[Target] = &[("scopefacts", "ScopeFacts", scopefacts as Gen)];
+
+fn codes(s: &str) -> String {
+    format!("[{}]", s.chars().map(|c| (c as u32).to_string()).collect::<Vec<_>>().join(", "))
+}
+
+fn flat(t: &impl ToTokens) -> String {
+    t.to_token_stream().to_string().replace(' ', "")
+}
+
+/// what `resolve_name` consults, in source order
+struct Order(Vec<&'static str>);
+impl<'ast> Visit<'ast> for Order {
+    fn visit_expr_method_call(&mut self, m: &'ast syn::ExprMethodCall) {
+        // receivers first: they are evaluated first
+        self.visit_expr(&m.receiver);
+        let recv = flat(&m.receiver);
+        if m.method == "get" && recv.ends_with("declarations") {
+            self.0.push("decl");
+        } else if m.method == "get" && recv.ends_with(".imports") {
+            self.0.push("imports");
+        } else if m.method == "parent" && recv == "self" {
+            self.0.push("parent");
+        }
+        for a in &m.args {
+            self.visit_expr(a);
+        }
+    }
+    fn visit_expr_unary(&mut self, u: &'ast syn::ExprUnary) {
+        if matches!(u.op, syn::UnOp::Not(_)) && flat(&u.expr) == "recurse" {
+            self.0.push("gate");
+        }
+        syn::visit::visit_expr_unary(self, u);
+    }
+    fn visit_expr_path(&mut self, p: &'ast syn::ExprPath) {
+        // `if recurse && …` is the same gate written positively (it guards what follows)
+        let _ = p;
+    }
+}
+
+/// every value given to the variable `recurse`, in source order
+struct Recurse(Vec<String>);
+impl<'ast> Visit<'ast> for Recurse {
+    fn visit_local(&mut self, l: &'ast syn::Local) {
+        if flat(&l.pat).trim_start_matches("mut") == "recurse" {
+            if let Some(init) = &l.init {
+                self.0.push(flat(&init.expr));
+            }
+        }
+        syn::visit::visit_local(self, l);
+    }
+    fn visit_expr_assign(&mut self, a: &'ast syn::ExprAssign) {
+        if flat(&a.left) == "recurse" {
+            self.0.push(flat(&a.right));
+        }
+        syn::visit::visit_expr_assign(self, a);
+    }
+}
+
+/// string literals compared (`==` / `!=`) with the expression named `lhs`
+struct Compared<'a>(&'a str, Vec<(String, String)>);
+impl<'ast> Visit<'ast> for Compared<'_> {
+    fn visit_expr_binary(&mut self, b: &'ast syn::ExprBinary) {
+        let op = match b.op {
+            syn::BinOp::Eq(_) => "==",
+            syn::BinOp::Ne(_) => "!=",
+            _ => "",
+        };
+        if !op.is_empty() && flat(&b.left) == self.0 {
+            if let syn::Expr::Lit(syn::ExprLit { lit: syn::Lit::Str(s), .. }) = &*b.right {
+                self.1.push((op.to_string(), s.value()));
+            }
+        }
+        syn::visit::visit_expr_binary(self, b);
+    }
+}
+
+/// string-literal arguments of calls of the method `name`
+struct MethodLits<'a>(&'a str, Vec<String>);
+impl<'ast> Visit<'ast> for MethodLits<'_> {
+    fn visit_expr_method_call(&mut self, m: &'ast syn::ExprMethodCall) {
+        if m.method == self.0 {
+            for a in &m.args {
+                match a {
+                    syn::Expr::Lit(syn::ExprLit { lit: syn::Lit::Str(s), .. }) => self.1.push(s.value()),
+                    syn::Expr::Lit(syn::ExprLit { lit: syn::Lit::Char(c), .. }) => self.1.push(c.value().to_string()),
+                    _ => {}
+                }
+            }
+        }
+        syn::visit::visit_expr_method_call(self, m);
+    }
+}
+
+/// first argument of the `wrap(…)` call whose second argument builds a module scope
+struct ModuleWrap(Vec<String>);
+impl<'ast> Visit<'ast> for ModuleWrap {
+    fn visit_expr_method_call(&mut self, m: &'ast syn::ExprMethodCall) {
+        if m.method == "wrap" && m.args.len() == 2 && flat(&m.args[1]).starts_with("ScopeType::Module(") {
+            self.0.push(flat(&m.args[0]));
+        }
+        syn::visit::visit_expr_method_call(self, m);
+    }
+}
+
+/// the format string of the first `format!` in a block
+struct FormatLit(Vec<String>);
+impl<'ast> Visit<'ast> for FormatLit {
+    fn visit_macro(&mut self, m: &'ast syn::Macro) {
+        if m.path.is_ident("format") {
+            if let Some(proc_macro2::TokenTree::Literal(l)) = m.tokens.clone().into_iter().next() {
+                if let Ok(syn::Lit::Str(s)) = syn::parse_str::<syn::Lit>(&l.to_string()) {
+                    self.0.push(s.value());
+                }
+            }
+        }
+    }
+}
+
+fn one<T: Clone>(what: &str, v: &[T]) -> Result<T, String> {
+    match v {
+        [x] => Ok(x.clone()),
+        _ => Err(format!("{what}: expected exactly one occurrence, found {}", v.len())),
+    }
+}
+
+fn scopefacts(repo: &Path) -> Result<String, String> {
+    // --- resolve_name
+    let scope_rs = find::parse(repo, "src/typechecker/scope.rs")?;
+    let f = find::func(&scope_rs, "resolve_name", Some("ScopeGraph"))?;
+    let mut o = Order(vec![]);
+    o.visit_block(&f.block);
+    let mut order = o.0;
+    // `if recurse && let Some(x) = …imports.get(..)`: the gate is the `recurse` operand
+    // of a `&&` that guards the imports: make it explicit when no `!recurse` precedes
+    let text = flat(&f.block);
+    if !order.contains(&"gate") && text.contains("recurse&&") {
+        if let Some(pos) = order.iter().position(|x| *x == "imports") {
+            order.insert(pos, "gate");
+        }
+    }
+    // the declaration looked up right after the imports is the import's target
+    if let Some(pos) = order.iter().position(|x| *x == "imports") {
+        if order.get(pos + 1) == Some(&"decl") {
+            order[pos + 1] = "target";
+        }
+    }
+    for want in ["decl", "gate", "imports", "target", "parent"] {
+        if order.iter().filter(|x| **x == want).count() != 1 {
+            return Err(format!("resolve_name: step `{want}` occurs {} times ({order:?})", order.iter().filter(|x| **x == want).count()));
+        }
+    }
+
+    // --- resolve_module_part_of_path
+    let expr_rs = find::parse(repo, "src/typechecker/expr.rs")?;
+    let f = find::func(&expr_rs, "resolve_module_part_of_path", None)?;
+    let mut r = Recurse(vec![]);
+    r.visit_block(&f.block);
+    let mut recurse = vec![];
+    for v in &r.0 {
+        match v.as_str() {
+            "true" => recurse.push("true"),
+            "false" => recurse.push("false"),
+            other => return Err(format!("resolve_module_part_of_path: `recurse` is given `{other}`")),
+        }
+    }
+    // `pkg` at the start of a path: looked up from the global scope
+    let text = flat(&f.block);
+    let pkg_global = text.contains("ifrecurse&&ident.node==\"pkg\".into(){scope=ScopeRef::GLOBAL;}");
+    let uses = flat(&f.block).matches("resolve_name(scope,ident,recurse)").count();
+    if uses != 1 {
+        return Err(format!("resolve_module_part_of_path: expected one `resolve_name(scope, ident, recurse)`, found {uses}"));
+    }
+
+    // --- declare_modules
+    let mod_rs = find::parse(repo, "src/typechecker/mod.rs")?;
+    let f = find::func(&mod_rs, "declare_modules", None)?;
+    let mut w = ModuleWrap(vec![]);
+    w.visit_block(&f.block);
+    let module_parent = one("declare_modules: wrap(_, ScopeType::Module(_))", &w.0)?;
+
+    // --- full_name
+    let info_rs = find::parse(repo, "src/typechecker/info.rs")?;
+    let f = find::func(&info_rs, "full_name", None)?;
+    let mut p = MethodLits("push", vec![]);
+    p.visit_block(&f.block);
+    let sep = one("full_name: push(<char>)", &p.1)?;
+    if !flat(&f.block).contains("print_scope(name.scope)") || !flat(&f.block).contains("push_str(name.ident.as_str())") {
+        return Err("full_name is not print_scope(scope) + separator + ident".into());
+    }
+
+    // --- get_function
+    let cg_rs = find::parse(repo, "src/codegen/mod.rs")?;
+    let f = find::func(&cg_rs, "get_function", Some("Module"))?;
+    let mut fl = FormatLit(vec![]);
+    fl.visit_block(&f.block);
+    let fmt = fl.0.first().cloned().ok_or("get_function: no format! found")?;
+    let prefix = fmt.strip_suffix("{name}").ok_or_else(|| format!("get_function: format string `{fmt}` does not end in {{name}}"))?.to_string();
+
+    // --- file discovery
+    let ft_rs = find::parse(repo, "src/file_tree.rs")?;
+    let f = find::func(&ft_rs, "find_files", None)?;
+    let mut c = Compared("ident", vec![]);
+    c.visit_block(&f.block);
+    let skipped: Vec<String> = c.1.iter().filter(|(op, _)| op == "==").map(|(_, s)| s.clone()).collect();
+    let mut e = Compared("ext", vec![]);
+    e.visit_block(&f.block);
+    let ext = one("find_files: ext != <literal>", &e.1.iter().filter(|(op, _)| op == "!=").map(|(_, s)| s.clone()).collect::<Vec<_>>())?;
+    // the root of every tree is called `pkg`
+    let mut root_named_pkg = true;
+    for (fname, pat) in [
+        ("file_spec", "files[0].module_name=\"pkg\".into();"),
+        ("single_file", "file.module_name=\"pkg\".into();"),
+        ("directory", "assert_eq!(pkg_file.module_name,\"pkg\");"),
+    ] {
+        let f = find::func(&ft_rs, fname, None)?;
+        if !flat(&f.block).contains(pat) {
+            root_named_pkg = false;
+        }
+    }
+    let f = find::func(&ft_rs, "process_subdir", None)?;
+    let mut j = MethodLits("join", vec![]);
+    j.visit_block(&f.block);
+    let dir_file = one("process_subdir: join(<literal>)", &j.1)?;
+    if !flat(&f.block).contains("if!file_path.exists(){returnOk(());}") {
+        return Err("process_subdir does not ignore directories without that file".into());
+    }
+    let f = find::func(&ft_rs, "directory", None)?;
+    let mut j = MethodLits("join", vec![]);
+    j.visit_block(&f.block);
+    let root_file = one("directory: join(<literal>)", &j.1)?;
+    let f = find::func(&ft_rs, "read_internal", None)?;
+    let mut c = Compared("file_name", vec![]);
+    c.visit_block(&f.block);
+    let named_after_dir = one("read_internal: file_name == <literal>", &c.1.iter().filter(|(op, _)| op == "==").map(|(_, s)| s.clone()).collect::<Vec<_>>())?;
+
+    let mut out = String::new();
+    out.push_str("/- GENERATED by /verif/extract from src/typechecker/{scope,expr,mod,info}.rs, src/codegen/mod.rs, src/file_tree.rs — do not edit. -/\nnamespace RotoV.Gen.ScopeFacts\n\n");
+    out.push_str("/-- what one iteration of `resolve_name` consults -/\ninductive Step | decl | gate | imports | target | parent\n  deriving DecidableEq, Repr\n\n");
+    out.push_str(&format!("/-- … in this order -/\ndef resolveNameOrder : List Step := [{}]\n\n", order.iter().map(|s| format!(".{s}")).collect::<Vec<_>>().join(", ")));
+    out.push_str(&format!("/-- the values `resolve_module_part_of_path` gives to `recurse`, in source order -/\ndef recurseValues : List Bool := [{}]\n\n", recurse.join(", ")));
+    out.push_str(&format!("/-- a first segment `pkg` (not after `super`) is looked up from `ScopeRef::GLOBAL` -/\ndef pkgFromGlobal : Bool := {pkg_global}\n\n"));
+    out.push_str(&format!("/-- first argument of `wrap` for a script module's scope (character codes) -/\ndef moduleScopeParent : List Nat := {}\n\n", codes(&module_parent)));
+    out.push_str(&format!("def fullNameSeparator : List Nat := {}\n\n", codes(&sep)));
+    out.push_str(&format!("/-- `get_function` looks up this prefix followed by the given name -/\ndef getFunctionPrefix : List Nat := {}\n\n", codes(&prefix)));
+    out.push_str(&format!("/-- `file_spec`, `single_file` and `directory` all call the root module `pkg` -/\ndef rootNamedPkg : Bool := {root_named_pkg}\n\n"));
+    out.push_str(&format!("/-- stems `find_files` does not turn into modules -/\ndef skippedStems : List (List Nat) := [{}]\n\n", skipped.iter().map(|s| codes(s)).collect::<Vec<_>>().join(", ")));
+    out.push_str(&format!("def moduleExtension : List Nat := {}\n\n", codes(&ext)));
+    out.push_str(&format!("/-- the file a directory needs to be a module -/\ndef dirModuleFile : List Nat := {}\n\n", codes(&dir_file)));
+    out.push_str(&format!("def rootFile : List Nat := {}\n\n", codes(&root_file)));
+    out.push_str(&format!("/-- the file name whose module is named after its directory -/\ndef namedAfterDirectory : List Nat := {}\n\n", codes(&named_after_dir)));
+    out.push_str("end RotoV.Gen.ScopeFacts\n");
+    Ok(out)
+}
